@@ -54,6 +54,46 @@ Theorem C03_auto_retries_encoding : forall me delay count d w,
 Proof. exact set_auto_retries_world. Qed.
 Print Assumptions C03_auto_retries_encoding.
 
+(* data_rate = 1 | 2 | 250 (Mbps / kbps): RF_SETUP := rate_value old speed, whose bits 5 and 3 (RF_DR_LOW, RF_DR_HIGH,
+   mask 40) are the documented 00 | 01 | 10 and whose other bits (mask 151: PA level, LNA, PLL_LOCK, CONT_WAVE) are
+   the old ones -- for every previous register content; any other speed: ValueError with nothing written anywhere *)
+Theorem C03_data_rate_encoding : forall me speed d w,
+  (me < length (radios w))%nat -> (speed = 1 \/ speed = 2 \/ speed = 250) ->
+  exists d1 w1, set_data_rate (WB me) speed d w = (Ok tt, d1, w1)
+    /\ cview (get_radio w1 me) = cset (cview (get_radio w me)) 6 (rate_value (creg (cview (get_radio w me)) 6) speed)
+    /\ (forall j, j <> me -> cview (get_radio w1 j) = cview (get_radio w j)).
+Proof. exact set_data_rate_world. Qed.
+Print Assumptions C03_data_rate_encoding.
+
+Theorem C03_data_rate_bits : forall n speed, (n < 256)%N -> (speed = 1 \/ speed = 2 \/ speed = 250) ->
+  N.land (rate_value n speed) 40 = Z.to_N (rate_bits speed) /\ N.land (rate_value n speed) 151 = N.land n 151.
+Proof. exact rate_value_bits. Qed.
+Print Assumptions C03_data_rate_bits.
+
+Theorem C03_data_rate_rejects : forall me speed d w,
+  (me < length (radios w))%nat -> ~ (speed = 1 \/ speed = 2 \/ speed = 250) ->
+  exists d1 w1, set_data_rate (WB me) speed d w = (Exn ValueError, d1, w1)
+    /\ (forall j, cview (get_radio w1 j) = cview (get_radio w j)).
+Proof. exact set_data_rate_world_rejects. Qed.
+Print Assumptions C03_data_rate_rejects.
+
+(* crc = length, ANY integer (clamped to 0..2): CONFIG := crc_value cached length, whose bits 3,2 (EN_CRC, CRCO, mask 12)
+   are 00 | 10 | 11 and whose other bits are those of the object's cached CONFIG byte *)
+Theorem C03_crc_encoding : forall me length d w,
+  (me < List.length (radios w))%nat -> 0 <= d_config d <= 255 ->
+  exists d1 w1, set_crc (WB me) length d w = (Ok tt, d1, w1)
+    /\ cview (get_radio w1 me) = cset (cview (get_radio w me)) 0 (crc_value (d_config d) length)
+    /\ (forall j, j <> me -> cview (get_radio w1 j) = cview (get_radio w j)).
+Proof. exact set_crc_world. Qed.
+Print Assumptions C03_crc_encoding.
+
+Theorem C03_crc_bits : forall cfg0 length, 0 <= cfg0 <= 255 ->
+  0 <= Z.lor (Z.land cfg0 115) (crc_bits length) <= 255
+  /\ N.land (crc_value cfg0 length) 12 = Z.to_N (crc_bits length)
+  /\ N.land (crc_value cfg0 length) 115 = N.land (Z.to_N cfg0) 115.
+Proof. exact crc_value_bits. Qed.
+Print Assumptions C03_crc_bits.
+
 (* simulation: same result, same cached attributes (up to the status byte), same configuration of radio `me`,
    every other radio's configuration untouched -- for arbitrary arguments, valid or not *)
 Theorem C03_sim_setters : forall me,
